@@ -47,6 +47,13 @@ macro_rules! check {
         if on(&[if $n == 5 { "C01" } else { "C02" }]) && [v, a, b, c, d, f] != [want; 6] {
             fail("ranking entry points", &inp, &want.to_string(), &format!("{:?}", [v, a, b, c, d, f]));
         }
+        if on(&["C06"]) {
+            match guarded(|| (h.hand_rank(), h.hand_rank_validated())) {
+                Some((a, b)) if a == b && a.value == want && format!("{:?}", a.name) == $o.cat_name[want as usize] && format!("{:?}", a.class) == $o.class_name[want as usize] => {}
+                other => fail("the reported rank does not carry the value / category / class of the best five cards", &inp,
+                              &format!("{} {} {}", want, $o.cat_name[want as usize], $o.class_name[want as usize]), &format!("{other:?}")),
+            }
+        }
         if on(&["C08"]) && e != v {
             fail("value after a suit shift", &inp, &v.to_string(), &e.to_string());
         }
